@@ -217,6 +217,12 @@ def sim_behaviours(ctx, prefix):
     return out
 
 
+def judged(rows):
+    """the events TLC needs: the per-record WAL log is in the raw trace for reading, the signer
+    events carry the number of unsynced records themselves"""
+    return [r for r in rows if r["ev"] != "Wal"]
+
+
 def observed_calls(rows):
     """per run: the signer calls the real node made, in order"""
     runs, cur = [], None
@@ -327,13 +333,14 @@ def run(ctx):
     # ---- 1. submit every TLC run (they are independent) --------------------------------------
     # exhaustive
     f_pv = tlc("C04_pv", core.cfg_variant(ctx, "C04_pv.cfg", "C04_pv_run.cfg",
-                                          {"MaxCalls": 3 if quick else 4, "MaxCrashes": 1 if quick else 2}),
+                                          {"MaxCalls": 3 if quick else 4, "MaxCrashes": 1}),
                must_pass=True, label="pv", workers=3)
     crash_cfgs = [("r0_prop", {"MaxRound": 0, "MaxCrashes": 2 if quick else 3, "Proposer": "{0}"}),
                   ("r0_noprop", {"MaxRound": 0, "MaxCrashes": 2 if quick else 3, "Proposer": "{}"})]
     if not quick:
-        crash_cfgs += [("r1_prop1", {"MaxRound": 1, "MaxCrashes": 1, "Proposer": "{1}"}),
-                       ("r1_noprop", {"MaxRound": 1, "MaxCrashes": 1, "Proposer": "{}"})]
+        # two rounds (lock in round 0, proposer of round 1): one block value besides nil, measured 1.1M / 1.7M states
+        crash_cfgs += [("r1_prop1", {"MaxRound": 1, "MaxCrashes": 1, "Proposer": "{1}", "Values": '{"A"}'}),
+                       ("r1_noprop", {"MaxRound": 1, "MaxCrashes": 1, "Proposer": "{}", "Values": '{"A"}'})]
     f_crash = [tlc("C04_crash", core.cfg_variant(ctx, "C04_crash.cfg", "C04_crash_%s.cfg" % tag, consts),
                    must_pass=True, heap="6g", label="crash_" + tag, workers=3) for tag, consts in crash_cfgs]
     # graphs (act-augmented, no VIEW)
@@ -372,7 +379,7 @@ def run(ctx):
     f_wcs = [(w, tlc("C04_crash", "C04_weak_crash_%s.cfg" % w, label="weak_crash_" + w))
              for w in PV_WEAK + ["NoFlushBeforeSign"]]
     f_nf = tlc("C04_crash", core.cfg_variant(ctx, "C04_crash_noflush_safe.cfg", "C04_crash_noflush_safe_run.cfg",
-                                             {"MaxCrashes": 1 if quick else 2}), must_pass=True, label="crash_noflush_safe")
+                                             {"MaxCrashes": 1}), must_pass=True, label="crash_noflush_safe")
     f_det = tlc("C04_crash", core.cfg_variant(ctx, "C04_crash_detected.cfg", "C04_crash_detected_run.cfg",
                                               {"MaxCrashes": 1 if quick else 2}), must_pass=True, label="crash_detected")
     f_st = [tlc("C04_crash", "C04_crash_%s_lockout.cfg" % k, label="crash_%s_lockout" % k) for k in ("shorttorn", "emptyhead")]
@@ -453,7 +460,7 @@ def run(ctx):
 
     # ---- 5. trace validation (TLC judges the observed behaviour) --------------------------------
     v_pv = core.validate_traces(ctx, "TMSignerTrace", rows_pv, label="pv", max_events=4000)
-    v_cs = core.validate_traces(ctx, "TMSignerTrace", rows_cs, label="cs", max_events=4000)
+    v_cs = core.validate_traces(ctx, "TMSignerTrace", judged(rows_cs), label="cs", max_events=4000)
 
     # how well the abstract node of TMSignCrash predicts the real node: signer calls expected
     # by the behaviour vs. signer calls made (statistic only)
@@ -571,7 +578,7 @@ def replay(ctx, path):
         if not sched:
             sched = schedule_from_rows(prefix)
         rows = run_cs_harness(ctx, [sched], 0, tag="replay")
-    v = core.validate_traces(ctx, "TMSignerTrace", rows, label="replay")
+    v = core.validate_traces(ctx, "TMSignerTrace", judged(rows), label="replay")
     verdict = core.Verdict(ctx)
     add_violations(verdict, v, half)
     for x in v["viol"]:
